@@ -258,28 +258,32 @@ def run_alone_ns(sv, res):
     about an element equals what match, closest and filter say when asked about that element alone."""
     import bs4
     from . import c03
-    with warnings.catch_warnings():
-        warnings.simplefilter('ignore')
-        soup = bs4.BeautifulSoup(c03.XML_DOC, 'xml')
-    els = T.elements(soup)
-    maps = ({'x': 'urn:a'}, {'': 'urn:a'}, {'': 'urn:b', 'x': 'urn:a'}, {'x': 'urn:b', 'y': 'urn:a'})
-    pats = [p for p in c03.XML_SELECTORS if '--' not in p] + ['e', '*', '[id]', 'e > e', 'x|f', ':not(e)']
-    for m in maps:
+    # second document: one prefix bound to two URIs at different depths (what a prefix means is decided by the caller's map, never by the place
+    # in the document the call happens to be made on)
+    rebound = '<r xmlns:p="urn:a"><p:e id="1"/><s xmlns:p="urn:b"><p:e id="2"><p:f id="3"/></p:e></s><p:e id="4"/></r>'
+    maps = ({'x': 'urn:a'}, {'': 'urn:a'}, {'': 'urn:b', 'x': 'urn:a'}, {'x': 'urn:b', 'y': 'urn:a'}, None)
+    pats = [p for p in c03.XML_SELECTORS if '--' not in p] + ['e', '*', '[id]', 'e > e', 'x|f', ':not(e)', 'p|e', 'q|e', 'p|*', ':not(p|e)', 'p|e > p|f']
+    for markup, m in [(mk, m_) for mk in (c03.XML_DOC, rebound) for m_ in maps]:
+        with warnings.catch_warnings():
+            warnings.simplefilter('ignore')
+            soup = bs4.BeautifulSoup(markup, 'xml')
+        els = T.elements(soup)
         for pat in pats:
             sv.purge()
+            kw = {} if m is None else {'namespaces': m}
             try:
-                sel = sv.select(pat, soup, namespaces=m)
+                sel = sv.select(pat, soup, **kw)
                 views = {
                     'select': [i for i, e in enumerate(els) if any(e is x for x in sel)],
-                    'match': [i for i, e in enumerate(els) if sv.match(pat, e, namespaces=m)],
-                    'closest': [i for i, e in enumerate(els) if sv.closest(pat, e, namespaces=m) is e],
-                    'filter': [i for i, e in enumerate(els) if any(e is x for x in sv.filter(pat, e.parent, namespaces=m))],
+                    'match': [i for i, e in enumerate(els) if sv.match(pat, e, **kw)],
+                    'closest': [i for i, e in enumerate(els) if sv.closest(pat, e, **kw) is e],
+                    'filter': [i for i, e in enumerate(els) if any(e is x for x in sv.filter(pat, e.parent, **kw))],
                     'select_one': [i for i, e in enumerate(els) if e.parent is not None and any(
-                        x is e for x in [sv.select_one(pat, e.parent, namespaces=m)] + sv.select(pat, e.parent, namespaces=m)[1:])],
-                    'iselect': [i for i, e in enumerate(els) if any(e is x for x in sv.iselect(pat, soup, namespaces=m))],
+                        x is e for x in [sv.select_one(pat, e.parent, **kw)] + sv.select(pat, e.parent, **kw)[1:])],
+                    'iselect': [i for i, e in enumerate(els) if any(e is x for x in sv.iselect(pat, soup, **kw))],
                 }
             except Exception as e:
-                res.fail({'layer': 'alone-ns', 'map': m, 'selector': pat}, {'kind': 'raise:' + type(e).__name__, 'selector': pat}, repr(e))
+                res.fail({'layer': 'alone-ns', 'map': m, 'selector': pat, 'rebound': markup is rebound}, {'kind': 'raise:' + type(e).__name__, 'selector': pat}, repr(e))
                 continue
             res.evaluations += len(els) * len(views)
             res.count('transitions', len(els) * len(views))
@@ -287,7 +291,7 @@ def run_alone_ns(sv, res):
                 res.nontrivial += 1
             for name, v in views.items():
                 if v != views['select']:
-                    res.fail({'layer': 'alone-ns', 'map': m, 'selector': pat}, {'kind': 'entry-points-disagree-about-one-element', 'entry': name, 'default_ns': '' in m},
+                    res.fail({'layer': 'alone-ns', 'map': m, 'selector': pat, 'rebound': markup is rebound}, {'kind': 'entry-points-disagree-about-one-element', 'entry': name, 'default_ns': bool(m) and '' in m, 'no_map': m is None},
                              f'[namespaced xml, namespaces={m!r}] select({pat!r}) designates elements {views["select"]}, {name} asked element by element says {v}')
                     break
     res.count('states', 1)
@@ -580,7 +584,7 @@ def replay(case):
         r = shard.Result()
         run_alone_ns(sv, r)
         for f_ in r.failures:
-            if f_['case']['selector'] == case['selector'] and f_['case']['map'] == case['map']:
+            if f_['case']['selector'] == case['selector'] and f_['case']['map'] == case['map'] and f_['case'].get('rebound') == case.get('rebound'):
                 return f_['sig'], f_['detail']
         return None
     if case['layer'] == 'reuse':
